@@ -823,17 +823,33 @@ struct PerSpec {
 pub fn main() -> i32 {
     MAIN_TID.store(gettid(), SeqCst);
     // reserve: a 6 MiB free chunk pinned below a live block, so that the batches are served without the
-    // allocator growing or trimming its segments (keeps VmSize comparable between batches)
-    let pin;
+    // allocator growing or trimming its segments (keeps VmSize comparable between batches). Small blocks are
+    // allocated (and kept) until one sits directly above the big block; whether the reserve survived the free
+    // is verified through VmSize and reported in the hello record.
+    const RES: usize = 6 << 20;
+    let reserve_ok;
     unsafe {
-        let big = alloc::alloc::alloc(Layout::from_size_align_unchecked(6 << 20, 8));
-        pin = alloc::alloc::alloc(Layout::from_size_align_unchecked(64, 8));
-        if big.is_null() || pin.is_null() {
+        let big = alloc::alloc::alloc(Layout::from_size_align_unchecked(RES, 8));
+        if big.is_null() {
             return 3;
         }
-        alloc::alloc::dealloc(big, Layout::from_size_align_unchecked(6 << 20, 8));
+        // (the optimiser may elide an unused alloc/dealloc pair)
+        core::ptr::write_volatile(black_box(big), 1);
+        let end = big as usize + RES;
+        for _ in 0..2048 {
+            let pin = alloc::alloc::alloc(Layout::from_size_align_unchecked(64, 8));
+            if pin.is_null() {
+                return 3;
+            }
+            core::ptr::write_volatile(black_box(pin), 1);
+            if (pin as usize) >= end && (pin as usize) < end + 256 {
+                break;
+            }
+        }
+        let before = vmsize_pages();
+        alloc::alloc::dealloc(black_box(big), Layout::from_size_align_unchecked(RES, 8));
+        reserve_ok = vmsize_pages() == before;
     }
-    black_box(pin);
     let mut pfds = [0i32; 2];
     unsafe {
         if (sc::syscall!(PIPE2, pfds.as_mut_ptr(), 0) as isize) < 0 {
@@ -854,6 +870,7 @@ pub fn main() -> i32 {
     let (lc, lb) = with_book(|b| (b.live_count, b.live_bytes));
     o64(lc);
     o64(lb);
+    o8(reserve_ok as u8);
     if !o_flush() {
         return 5;
     }
